@@ -21,7 +21,10 @@
 EXTENDS Naturals, Sequences, FiniteSets, TLC
 
 SharedForms == {"none", "variant", "wrap", "twice", "pos_arg", "pos_arg_bare", "alias", "alias_bare",
-                "text", "field", "variant_field", "dbg", "padded", "pos_dbg", "twice_padded", "alias_dbg", "pos_after_alias"}
+                "text", "field", "variant_field", "dbg", "padded", "pos_dbg", "twice_padded", "alias_dbg", "pos_after_alias",
+                \* enum-level formats that are ONE bare placeholder (the transparent-call path) and do not mention `_variant`:
+                \* a constant expression argument, a field by name, a named constant argument
+                "bare_expr", "bare_field", "bare_alias_expr"}
 Mentions(s) == s \in {"variant", "wrap", "twice", "pos_arg", "pos_arg_bare", "alias", "alias_bare",
                       "variant_field", "dbg", "padded", "pos_dbg", "twice_padded", "alias_dbg", "pos_after_alias"}
 \* a `_variant` placeholder carrying a specifier or a non-Display trait - ANY of them ("twice_padded": the second of two;
@@ -30,7 +33,7 @@ BadVariantSpec(s) == s \in {"dbg", "padded", "pos_dbg", "twice_padded", "alias_d
 \* the shared literal is exactly one bare Display placeholder denoting `_variant`
 SharedIsBareVariant(s) == s \in {"variant", "pos_arg_bare", "alias_bare"}
 \* fields the shared literal itself refers to by name
-SharedUsesField0(s) == s \in {"field", "variant_field"}
+SharedUsesField0(s) == s \in {"field", "variant_field", "bare_field"}
 
 HasField0(v) == v.kind \in {"t1", "t2"}        \* a binding called `_0`
 NFields(v) == CASE v.kind = "unit" -> 0 [] v.kind \in {"t1", "n1"} -> 1 [] v.kind = "t2" -> 2
@@ -58,6 +61,7 @@ Subst(s, inner) ==
       [] s = "twice" -> inner \o <<"T:-">> \o inner
       [] s = "variant_field" -> inner \o <<"T:/">> \o <<"F0">>
 SharedDefault(s) == CASE s = "text" -> <<"T:shared">> [] s = "field" -> <<"T:f:", "F0">>
+                      [] s \in {"bare_expr", "bare_alias_expr"} -> <<"T:8">> [] s = "bare_field" -> <<"F0">>
 
 DocText(v, s, D, er) ==
     IF D = "Debug" /\ s # "none" THEN REJECT                        \* no enum-level format on Debug
